@@ -73,6 +73,14 @@ Theorem C13_selected_rows_satisfy : forall op x c, In op ops -> is_none x = fals
 Proof. exact cond_cell_nonnull. Qed.
 Print Assumptions C13_selected_rows_satisfy.
 
+(* the "~" operator is part of the row-level model (so C13_exact / C13_custom_mask speak about programs that use it):
+   it selects exactly the rows whose cell holds a value that is falsy; the first pass never prunes on it (the translated
+   leaf answers "keep" for an operator it does not know, see the non-vacuity example) *)
+Theorem C13_tilde_meaning : forall x c,
+  cond_cell "~" x c = Ok (if is_none x then false else negb (truthy x)).
+Proof. exact cond_cell_tilde. Qed.
+Print Assumptions C13_tilde_meaning.
+
 Theorem C13_custom_mask : forall (R : Type) (rgs : list (rowgroup R)) (mask : list bool) (out : list R),
   rows_consistent R rgs -> masked_read R rgs mask = Ok out ->
   List.length mask = List.length (flat_map rg_rows rgs) /\ out = select mask (flat_map rg_rows rgs).
